@@ -172,6 +172,16 @@ pub fn run_c13(args: &[String]) {
                 let x = ctx.xor(roots[0], roots[1]);
                 roots.push(x);
             }
+        } else if b == roots_all.len().div_ceil(bsz) && nrandom > 0 {
+            // the input of a recorded finding (KF-C13-mul-wide) that random batches do not reach in every run:
+            // a product of two 129-bit literals
+            let x = ctx.bv_symbol("x", 129);
+            let l1 = ctx.ones(129);
+            let l2 = ctx.one(129);
+            let m = ctx.mul(l1, l2);
+            let e = ctx.xor(x, m);
+            roots.push(m);
+            roots.push(e);
         } else if (b - roots_all.len().div_ceil(bsz)) % 3 == 2 {
             // array terms whose constant arrays have a reducible element (an ArrayConstant is not a leaf), queried both
             // on their own and as operands of read / store / equality / if-then-else, in random order
